@@ -77,10 +77,14 @@ class Report:
                 self.assumptions.append(t)
 
     def violation(self, v):
-        # de-duplicate by key+witness
-        for o in self.violations:
-            if o.key == v.key and o.witness == v.witness:
-                return
+        # de-duplicate by key+witness; keep a handful of witnesses per key (a broken tree can produce 10^5 of them)
+        cnt = self.__dict__.setdefault("_vcount", {})
+        seen = self.__dict__.setdefault("_vseen", set())
+        sig = (v.key, repr(v.witness))
+        cnt[v.key] = cnt.get(v.key, 0) + 1
+        if sig in seen or cnt[v.key] > 5:
+            return
+        seen.add(sig)
         self.violations.append(v)
 
     def harness_error(self, msg):
